@@ -235,8 +235,9 @@ def allGo (monthly : Bool) (ts : Nat) (leap : Bool) :
       pure (p :: ps)
     else allGo monthly ts leap st env r rs
 
-/-- `_extract_all_run_period(reporting_frequency, timestep, leap_year)` over **all** rows of the
-    `Time` table in rowid order (whatever their interval type). -/
+/-- `_extract_all_run_period(reporting_frequency, timestep, leap_year)` over the rows `time` it selects
+    from the `Time` table, in rowid order (the caller `periodsOf` passes the rows of the data's own
+    interval type: `ownIntervalType`). -/
 def allRunPeriods (time : List TimeRow) (monthly : Bool) (ts : Nat) (leap : Bool) :
     Except Err (List Period) :=
   match time with
@@ -447,15 +448,25 @@ def timeSpan {α : Type} (data : List (DataRow α)) : Except Err (Nat × Nat) :=
   | some a, some b => .ok (a.time, b.time)
   | _, _ => .error .index
 
+/-- The `WHERE IntervalType …` clause of `_extract_all_run_period` (fixes/C19_all_run_periods_own_
+    interval_type.patch): only the `Time` rows of the data's own interval type are scanned – type 3 for
+    monthly data, type 2 for daily data, types `<= 1` for hourly and sub-hourly data. -/
+def ownIntervalType (freq : Freq) (r : TimeRow) : Bool :=
+  match freq with
+  | .monthly => r.itype == 3
+  | .daily => r.itype == 2
+  | _ => decide (r.itype ≤ 1)
+
 /-- The time-table stage of `data_collections_by_output_name`: frequency and either the single run
     period (`inr`; `none` for annual data) or, when first and last row lie in different environments
-    and the data is not annual, all run periods rebuilt from the whole `Time` table (`inl`). -/
+    and the data is not annual, all run periods rebuilt from the `Time` rows of the data's own interval
+    type (`inl`). -/
 def periodsOf (time : List TimeRow) (stT enT : Nat) :
     Except Err (Freq × (List Period ⊕ Option Period)) := do
   let (rp, freq, mult) ← extractRunPeriod time stT enT
   match mult, rp with
   | true, some p => do
-    let ps ← allRunPeriods time (freq == .monthly) p.timestep p.leap
+    let ps ← allRunPeriods (time.filter (ownIntervalType freq)) (freq == .monthly) p.timestep p.leap
     pure (freq, .inl ps)
   | _, _ => pure (freq, .inr rp)
 
